@@ -41,6 +41,7 @@ struct aln_mem{
         int mode;
 #ifdef KALIGN_VERIF
         int kv_par;             /* 1 while the parallel controller drives this memory */
+        float kv_score;         /* score the last meetup returned (logged with the split) */
 #endif
 };
 
